@@ -646,6 +646,8 @@ def gen_record(rng, crit, o):
     c = rng.choice(CATEGORIES + ["a", "b"])
     if o.get("cat_none", True) and rng.random() < 0.12:
         c = rng.choice([None, float("nan")])
+    elif o.get("cat_bool", False) and rng.random() < 0.1:
+        c = rng.choice([True, False])  # booleans are legitimate categories (keys True/False, "True"/"False" in JSON)
     rec["c"] = c
     rec["t"] = rng.choice(STRINGS)
     for f in SELF:
